@@ -63,7 +63,8 @@ class World:
             n0 = len(self.push.snapshots)
             self.handler.trace_call(gen.gi_frame, 'line', None)
             gen.close()
-            ids += [s.tracepoint.watches[0].strip("'") for s in self.push.snapshots[n0:]]
+            # the marker travels as the first watch; a tracepoint that lost it acts under no recognisable identity
+            ids += [(list(s.tracepoint.watches) + ['<no watch>'])[0].strip("'") for s in self.push.snapshots[n0:]]
         return sorted(ids)
 
 
